@@ -486,6 +486,13 @@ def _dom_cosmo_vec(tier, seed):
                 for a, b, kind in ((arr, 4.5, "array-scalar"), (0.01, arr, "scalar-array"), (np.asarray(arr, dtype="f8") * 0.1, arr, "arrays")):
                     yield dict(call=(lambda: None), args=[], ghost=dict(c=c, name=name, a=a, b=b, mismatch=False),
                                key="%s %s %s flat=%s" % (name, tag, kind, c.flat()))
+            # pair lists as a lensing code builds them: grouped by lens (repeated first redshift), sources in front of, at and
+            # behind the lens in any order, reversed pairs
+            for tag, a, b in (("grouped", [0.2, 0.5, 0.5, 0.5, 0.9, 0.9], [0.8, 0.3, 0.9, 0.5, 0.1, 2.0]),
+                              ("grouped2", [0.4, 0.4, 0.4, 1.0, 1.0], [0.4, 0.7, 0.2, 3.0, 1.0]),
+                              ("wide", [0.0, 0.5, 0.0, 2.5, 5.0], [5.0, 4.0, 2.1, 0.1, 0.0])):
+                yield dict(call=(lambda: None), args=[], ghost=dict(c=c, name=name, a=np.array(a), b=np.array(b), mismatch=False),
+                           key="%s %s arrays flat=%s" % (name, tag, c.flat()))
             yield dict(call=(lambda c=c, name=name: getattr(c, name)(np.array([0.1, 0.2]), np.array([1.0, 2.0, 3.0]))), args=[],
                        ghost=dict(c=c, name=name, a=np.array([0.1]), b=np.array([0.2]), mismatch=True), key="%s mismatched lengths" % name)
 
